@@ -609,6 +609,12 @@ func (s *sim) dialConfig(dopts []grpc.DialOption, want *pb.ApiConfig, who string
 		if !proto.Equal(got, w) && s.cfgBad == "" {
 			s.cfgBad = fmt.Sprintf("%sa pool was dialled with the channel-pool configuration %s; this instance was given %s", who, canonJSON(got), canonJSON(w))
 		}
+		if lastResolverSCOff == resolverSCOn && s.cfgBad == "" {
+			// the configuration is only the DEFAULT service config of the pool's channel
+			// and the channel accepts service configs from its resolver (DNS TXT records
+			// are looked up by default): whatever the resolver delivers replaces it
+			s.cfgBad = who + "a pool was dialled with the instance's configuration as default service config but without switching off service configs from the resolver (grpc.WithDisableServiceConfig): a resolver that delivers one overrides the configuration this instance was given"
+		}
 		return
 	}
 	if len(sc.LB) > 0 {
